@@ -184,6 +184,12 @@ func runLifeSeq(ctx context.Context, srv *sim.Server, seqNo int, calls []lcall, 
 			}
 			if old := sl.atts[call.d]; old != nil && old.DocID != dummyDocID && sl.ever[call.d] {
 				nch = len(old.Doc.CreateChangePack().Changes)
+				if st := old.Doc.Status(); st != document.StatusDetached {
+					// client.Attach refuses an instance that is not detached (attached or removed)
+					// before it talks to the server
+					err = fmt.Errorf("document is not detached (status %v)", st)
+					break
+				}
 				a, f := sl.c.AttachBeginWith(ctx, old.Doc, old.Stop(), sim.AttachOpts{DisablePresence: true})
 				err = f.Apply()
 				if err == nil {
